@@ -37,6 +37,20 @@ def parseSeq (line : String) : Option (List (Cfg × List Msg)) :=
       | _ => none
   | _ => none
 
+def parseEvents (s : String) : Option (List Ev) :=
+  ((splitList s).zipIdx).mapM fun (t, i) =>
+    if t.startsWith "@" then (t.drop 1).toString.toNat?.map Ev.clock
+    else (parseMsg i t).map Ev.msg
+
+def parseCoord (line : String) : Option (Cfg × List Ev) :=
+  match splitWs line with
+  | ["fcoord", seats, self, block, leader, allowed, events] => do
+    let (cfg, _) ← mkCase seats self leader block allowed "-"
+    let evs ← parseEvents events
+    if cfg.seats.isEmpty then none
+    pure (cfg, evs)
+  | _ => none
+
 def parseRace (line : String) : Option (Cfg × List Msg × Nat) :=
   match splitWs line with
   | ["frace", seats, self, leader, block, allowed, msgs, k] => do
@@ -61,7 +75,17 @@ def render (r : Option (Option (Nat × Nat) × List Fault)) : String :=
   | some (p, fs) =>
     s!"prop={showProp p} faults={showList (fs.map showFault)} err={if p.isNone then 1 else 0}"
 
+def renderCoord (cfg : Cfg) (r : Nat × Option (Option (Nat × Nat) × List Fault)) : String :=
+  match r.2 with
+  | none => panicText
+  | some (none, _) => s!"cancel={r.1} err"
+  | some (some p, fs) =>
+    s!"cancel={r.1} leader={cfg.leader} prop={showProp (some p)} faults={showList (fs.map showFault)}"
+
 def model (line : String) : String :=
+  match parseCoord line with
+  | some (cfg, evs) => renderCoord cfg (coordinateFollower cfg evs)
+  | none =>
   match parseCase line, parseSeq line, parseRace line with
   | some (cfg, msgs), _, _ => render (follower cfg msgs)
   | _, some ws, _ =>
@@ -101,7 +125,29 @@ def monitorOne (cfg : Cfg) (msgs : List Msg) (obs : String) : String :=
   | _ =>
     if (leaderID? cfg).isNone && obs.startsWith "PANIC" then "ok" else "FAIL unparsable-observation"
 
+def monitorCoord (cfg : Cfg) (evs : List Ev) (obs : String) : String :=
+  let endB := activePhaseEndBlock cfg.block
+  let hist := activeMsgs endB evs
+  match splitWs obs with
+  | c :: rest =>
+    match (stripPrefix "cancel=" c).bind parseNats with
+    | some [cb] =>
+      if cb != endB then "FAIL routine-context-not-ended-at-active-phase-end"
+      else match rest with
+        | ["err"] =>
+          if (hist.find? (acceptable cfg ((leaderID? cfg).getD 0))).isSome then "FAIL follower-rule" else "ok"
+        | [l, p, f] =>
+          if l != s!"leader={cfg.leader}" then "FAIL leader-differs-from-getLeader" else
+          let r := monitorOne cfg hist s!"{p} {f} err=0"
+          if r = "ok" then "ok" else r ++ " (active phase only)"
+        | _ => "FAIL unparsable-observation"
+    | _ => "FAIL routine-context-not-ended-at-active-phase-end"
+  | [] => "FAIL unparsable-observation"
+
 def monitor (op obs : String) : String :=
+  match parseCoord op with
+  | some (cfg, evs) => monitorCoord cfg evs obs
+  | none =>
   match parseCase op, parseSeq op, parseRace op with
   | some (cfg, msgs), _, _ => monitorOne cfg msgs obs
   | _, some ws, _ =>
